@@ -185,3 +185,158 @@ Proof.
     + intros todo Ht. exfalso. eapply Hnrec; eauto.
     + rewrite Eph. intros [Hp|Hp]; exfalso; [apply (proj1 Hnend Hp)|apply (proj2 Hnend Hp)].
 Qed.
+
+(* ------------------------------------------------------------------ moves that touch no plan check group in memory *)
+Lemma DI_frame sh I r r' :
+  (forall g, ist (s_img (r_s r')) (pchk g) = ist (s_img (r_s r)) (pchk g)) ->
+  (forall g, mget r' (pchk g) = mget r (pchk g)) ->
+  (forall g n v, tget (s_g (r_s r')) g = GIdle (S n) (Some v) -> tget (s_g (r_s r)) g = GIdle (S n) (Some v)) ->
+  (forall todo, r_ph r' = RRecover todo ->
+     r_ph r = RRecover todo /\ ((forall g, g_is_idle (tget (s_g (r_s r)) g) = true) -> forall g, g_is_idle (tget (s_g (r_s r')) g) = true)
+     /\ s_thr (r_s r') = s_thr (r_s r) /\ s_ph (r_s r') = s_ph (r_s r)) ->
+  (s_ph (r_s r') = PEnd \/ s_ph (r_s r') = PReleased -> s_ph (r_s r) = PEnd \/ s_ph (r_s r) = PReleased) ->
+  DI sh I r -> DI sh I r'.
+Proof.
+  intros Hd Hm Hg Hrec Hph [De Dl Df Dr Dp]. constructor.
+  - intros g Hp Hnr. rewrite Hd in *. unfold mst. rewrite Hm. now apply De.
+  - intros g n v Hp Ht. unfold mst. rewrite Hm. eapply Dl; eauto.
+  - intros todo Ht g. rewrite Hm. destruct (Hrec _ Ht) as (Ht' & _). eapply Df; eauto.
+  - intros todo Ht. destruct (Hrec _ Ht) as (Ht' & Hi & E1 & E2). destruct (Dr _ Ht') as (A & B & C).
+    rewrite E1, E2. auto.
+  - intro Hp. apply (pd_ok_ext sh (mst (mget r))); [unfold mst; now rewrite Hm|unfold mst; now rewrite Hm|]. apply Dp. now apply Hph.
+Qed.
+
+(* plugin events, reads, the release *)
+Lemma DI_event sh I r e s' :
+  WA sh (r_s r) -> DI sh I r -> (forall o stt n ok rs, e <> EvWrite o stt n ok rs) -> handle sh (r_s r) e = Some s' ->
+  DI sh I (with_s r s').
+Proof.
+  intros [Hw Hab] HD Hnw H. pose proof HD as [De Dl Df Dr Dp].
+  destruct (handle_cases _ _ _ _ H) as
+    [g op x owed Hop Ha _ Hu _ | b bs g op x owed _ _ _ _ Hu _ | b bs q sq sq' owed _ _ _ Hu _ | b bs stt r0 E _ _ Hu _
+    | stt r0 E _ Hu _ | a l E _ E1 E2 E3 E4 _ _ _ _ _ | snap _ E | fin E Hpe _ _ E1 E2 E3 E4 _ _ _ _];
+    try (exfalso; eapply Hnw; eauto; fail).
+  - (* a Start / End of a plan check action *)
+    assert (Himg : s_img s' = s_img (r_s r)).
+    { rewrite (us_img _ _ _ _ _ _ Hu). destruct e; try reflexivity. exfalso. eapply Hnw; eauto. }
+    assert (Hnv : forall st, op <> OpVerdict st).
+    { intros st ->. destruct e as [a|a o|o stt n ok rs|snap|fin]; try discriminate Hop.
+      - cbn in Hop. destruct a; discriminate.
+      - cbn in Hop. destruct a; discriminate.
+      - exfalso. eapply Hnw; eauto. }
+    assert (Hnrec : forall todo, r_ph r <> RRecover todo).
+    { intros todo Ht. destruct (Dr _ Ht) as (Hi & Hl & Hp). rewrite (no_may_in_blocks _ g Hp Hl) in Ha.
+      rewrite (g_apply_idle_nomay _ _ _ _ op (Hi g)) in Ha. discriminate. }
+    apply (DI_frame sh I r (with_s r s')); cbn [r_s r_ph with_s mget r_mem r_base]; auto.
+    + intro g'. now rewrite Himg.
+    + intros g' n v Ht. rewrite (us_g _ _ _ _ _ _ Hu) in Ht. destruct (grp_dec g g') as [<- |Hne].
+      * rewrite tget_tset_same in Ht. exfalso. eapply Hnv. eapply g_apply_closed; eauto.
+      * now rewrite tget_tset_other in Ht.
+    + intros todo Ht. exfalso. eapply Hnrec; eauto.
+    + rewrite (us_ph _ _ _ _ _ _ Hu). auto.
+  - apply (DI_frame sh I r (with_s r s')); cbn [r_s r_ph with_s mget r_mem r_base]; auto.
+    + intro g'. rewrite (us_img _ _ _ _ _ _ Hu). destruct e; try reflexivity. exfalso. eapply Hnw; eauto.
+    + intros g' n v. now rewrite (us_g _ _ _ _ _ _ Hu).
+    + intros todo Ht. rewrite (us_g _ _ _ _ _ _ Hu), (us_thr _ _ _ _ _ _ Hu), (us_ph _ _ _ _ _ _ Hu). auto.
+    + rewrite (us_ph _ _ _ _ _ _ Hu). auto.
+  - apply (DI_frame sh I r (with_s r s')); cbn [r_s r_ph with_s mget r_mem r_base]; auto.
+    + intro g'. rewrite (us_img _ _ _ _ _ _ Hu). destruct e; try reflexivity. exfalso. eapply Hnw; eauto.
+    + intros g' n v. now rewrite (us_g _ _ _ _ _ _ Hu).
+    + intros todo Ht. rewrite (us_g _ _ _ _ _ _ Hu), (us_thr _ _ _ _ _ _ Hu), (us_ph _ _ _ _ _ _ Hu). auto.
+    + rewrite (us_ph _ _ _ _ _ _ Hu). auto.
+  - apply (DI_frame sh I r (with_s r s')); cbn [r_s r_ph with_s mget r_mem r_base]; auto.
+    + intro g'. now rewrite E1.
+    + intros g' n v. now rewrite E3.
+    + intros todo Ht. rewrite E3, E4, E2. auto.
+    + rewrite E2. auto.
+  - subst s'. apply (DI_frame sh I r (with_s r (r_s r))); cbn [r_s r_ph with_s mget r_mem r_base]; auto.
+  - apply (DI_frame sh I r (with_s r s')); cbn [r_s r_ph with_s mget r_mem r_base]; auto.
+    + intro g'. now rewrite E1.
+    + intros g' n v. now rewrite E3.
+    + intros todo Ht. destruct (Dr _ Ht) as (_ & _ & Hp). congruence.
+Qed.
+
+(* ------------------------------------------------------------------ phase moves and the plan's groups *)
+Lemma p_eps_groups sh s s' :
+  p_eps sh s = Some s' ->
+  forall g, tget (s_g s') g = tget (s_g s) g \/ g_settle (tget (s_g s) g) (ist (s_img s) (pchk g)) = Some (tget (s_g s') g).
+Proof.
+  unfold p_eps. intro H.
+  assert (OD : forall t g0 present x v, once_done present (tget t g0) (ist (s_img s) (pchk g0)) = Some (x, v) ->
+               forall g, tget (tset t g0 x) g = tget t g \/ g_settle (tget t g) (ist (s_img s) (pchk g)) = Some (tget (tset t g0 x) g)).
+  { intros t g0 present x v E g. destruct (grp_dec g0 g) as [<- |Hne]; [|left; now apply tget_tset_other].
+    rewrite tget_tset_same. unfold once_done in E. destruct present; [|injection E as <- _; now left].
+    destruct (g_settle (tget t g0) _) as [[[|r] [v0|]|]|] eqn:Es; try discriminate. injection E as <- _. now right. }
+  assert (ST : forall t g0 x, g_settle (tget t g0) (ist (s_img s) (pchk g0)) = Some x ->
+               forall g, tget (tset t g0 x) g = tget t g \/ g_settle (tget t g) (ist (s_img s) (pchk g)) = Some (tget (tset t g0 x) g)).
+  { intros t g0 x E g. destruct (grp_dec g0 g) as [<- |Hne]; [|left; now apply tget_tset_other].
+    rewrite tget_tset_same. now right. }
+  destruct (s_ph s).
+  - destruct (status_eqb _ Running); [|discriminate]. injection H as <-. intro g. now left.
+  - destruct (g_bypass (sh_groups sh)).
+    + destruct (once_done true (t_bypass (s_g s)) _) as [[x [|]]|] eqn:E; try discriminate; injection H as <-; exact (OD (s_g s) GBypass _ _ _ E).
+    + injection H as <-. intro g. now left.
+  - destruct (once_done _ (t_pre (s_g s)) _) as [[x v1]|] eqn:E1; [|discriminate].
+    destruct (once_done _ (t_cont (s_g s)) _) as [[y v2]|] eqn:E2; [|discriminate].
+    assert (T : forall g, tget (tset (tset (s_g s) GPre x) GCont y) g = tget (s_g s) g
+                          \/ g_settle (tget (s_g s) g) (ist (s_img s) (pchk g)) = Some (tget (tset (tset (s_g s) GPre x) GCont y) g)).
+    { intro g. destruct (grp_dec GCont g) as [<- |Hne].
+      - exact (OD (tset (s_g s) GPre x) GCont _ _ _ E2 GCont).
+      - rewrite tget_tset_other by exact Hne. exact (OD (s_g s) GPre _ _ _ E1 g). }
+    destruct (v1 && v2); injection H as <-; [|exact T].
+    intro g. unfold enter_block. destruct (block_of sh 0); exact (T g).
+  - destruct (block_of sh (s_cb s)) as [bs|].
+    + destruct (b_eps bs (s_img s) (s_cb s) (p_visible s) (s_b s)) as [[b'|[|]]|]; try discriminate; injection H as <-; intro g; try (now left).
+      unfold enter_block. destruct (block_of sh (S (s_cb s))); now left.
+    + injection H as <-. intro g. now left.
+  - destruct (thr_live (s_thr s)).
+    + destruct (g_settle _ _) as [x|] eqn:E; [|discriminate]. injection H as <-.
+      destruct (g_dead x); exact (ST (s_g s) GCont _ E).
+    + destruct (once_done _ (t_post (s_g s)) _) as [[x v]|] eqn:E; [|discriminate]. injection H as <-. exact (OD (s_g s) GPost _ _ _ E).
+  - destruct (thr_live (s_thr s)).
+    + destruct (g_settle _ _) as [x|] eqn:E; [|discriminate]. injection H as <-. exact (ST (s_g s) GCont _ E).
+    + destruct (once_done _ (t_deferred (s_g s)) _) as [[x v]|] eqn:E; [|discriminate]. injection H as <-. exact (OD (s_g s) GDeferred _ _ _ E).
+  - discriminate.
+  - discriminate.
+Qed.
+
+Lemma once_done_present g dst x v : once_done true g dst = Some (x, v) -> exists n, x = GIdle (S n) (Some v).
+Proof.
+  unfold once_done. destruct (g_settle g dst) as [[[|r] [v0|]|]|]; try discriminate. intro H. injection H as <- <-. eauto.
+Qed.
+
+(* how the state chain reaches End by a phase move *)
+Lemma p_eps_to_end sh s s' :
+  p_eps sh s = Some s' -> s_ph s' = PEnd \/ s_ph s' = PReleased ->
+  (gpresent sh GBypass = true /\ exists n, tget (s_g s') GBypass = GIdle (S n) (Some true))
+  \/ gpresent sh GDeferred = false \/ exists n v, tget (s_g s') GDeferred = GIdle (S n) (Some v).
+Proof.
+  unfold p_eps. intros H Hp. destruct (s_ph s) eqn:Ep.
+  - destruct (status_eqb _ Running); [|discriminate]. injection H as <-. cbn in Hp. destruct Hp; discriminate.
+  - destruct (g_bypass (sh_groups sh)) eqn:Eg.
+    + destruct (once_done true (t_bypass (s_g s)) _) as [[x [|]]|] eqn:E; try discriminate; injection H as <-.
+      * left. split; [unfold gpresent; cbn; now rewrite Eg|]. destruct (once_done_present _ _ _ _ E) as (n & ->). exists n. reflexivity.
+      * cbn in Hp. destruct Hp; discriminate.
+    + injection H as <-. cbn in Hp. destruct Hp; discriminate.
+  - destruct (once_done _ (t_pre (s_g s)) _) as [[x v1]|]; [|discriminate].
+    destruct (once_done _ (t_cont (s_g s)) _) as [[y v2]|]; [|discriminate].
+    destruct (v1 && v2); injection H as <-; cbn in Hp; destruct Hp; discriminate.
+  - destruct (block_of sh (s_cb s)) as [bs|].
+    + destruct (b_eps bs (s_img s) (s_cb s) (p_visible s) (s_b s)) as [[b'|[|]]|]; try discriminate; injection H as <-.
+      * cbn in Hp. rewrite Ep in Hp. destruct Hp; discriminate.
+      * cbn in Hp. destruct Hp; discriminate.
+      * unfold enter_block in Hp. destruct (block_of sh (S (s_cb s))); cbn in Hp; rewrite Ep in Hp; destruct Hp; discriminate.
+    + injection H as <-. cbn in Hp. destruct Hp; discriminate.
+  - destruct (thr_live (s_thr s)).
+    + destruct (g_settle _ _) as [x|]; [|discriminate]. injection H as <-.
+      destruct (g_dead x); cbn in Hp; rewrite ?Ep in Hp; destruct Hp; discriminate.
+    + destruct (once_done _ (t_post (s_g s)) _) as [[x v]|]; [|discriminate]. injection H as <-. cbn in Hp. destruct Hp; discriminate.
+  - destruct (thr_live (s_thr s)).
+    + destruct (g_settle _ _) as [x|]; [|discriminate]. injection H as <-. cbn in Hp. rewrite Ep in Hp. destruct Hp; discriminate.
+    + destruct (once_done _ (t_deferred (s_g s)) _) as [[x v]|] eqn:E; [|discriminate]. injection H as <-.
+      destruct (g_deferred (sh_groups sh)) eqn:Eg.
+      * right. right. cbn [present] in E. destruct (once_done_present _ _ _ _ E) as (n & ->). exists n, v. reflexivity.
+      * right. left. unfold gpresent. cbn. now rewrite Eg.
+  - discriminate.
+  - discriminate.
+Qed.
